@@ -208,9 +208,23 @@ func runC11(c *Ctx) {
 				}
 			}
 			if srcKind == "dedup" {
-				b = append(append([]parquet.Row{}, b...), a[:len(a)/2]...) // duplicates of a in b
-				// keep b sorted by id: a's ids are all smaller or interleaved; sort by the id value
-				sortRowsByID(b)
+				// duplicate keys WITHIN each input (every third row repeated) and, half of the
+				// time, ACROSS inputs as well
+				dupWithin := func(in []parquet.Row) []parquet.Row {
+					var out []parquet.Row
+					for i, row := range in {
+						out = append(out, row)
+						if i%3 == 0 {
+							out = append(out, row.Clone())
+						}
+					}
+					return out
+				}
+				a, b = dupWithin(a), dupWithin(b)
+				if r.Bool() && len(a) > 1 {
+					b = append(append([]parquet.Row{}, b...), a[:len(a)/2]...)
+					sortRowsByID(b)
+				}
 			}
 			so := append(append([]parquet.WriterOption{}, noSplit...), parquet.SortingWriterConfig(sorting))
 			var fa, fb *parquet.File
